@@ -125,15 +125,15 @@ PROPS = {
     ),
     "C01": dict(
         proof_modules=["KsVerif.Proofs.C01"],
-        families=["redis.raw", "amqp.raw"],
+        families=["redis.raw", "amqp.raw", "kafka.raw"],
         rule="amqp.raw: corpus of frames with lengths far beyond the data, negative lengths, bad frame types and "
              "end octets (each with every two-piece split and both stream ends), every prefix of well-formed halves, "
              "byte corruptions with boundary values, random bytes, random splits; redis.raw: fixed corpus of inputs that historically broke the reader (each with every two-piece split, "
              "EOF and reader-error tails), plus seeded: every prefix of well-formed halves, 1-3 byte corruptions with "
              "boundary values, random bytes, random multi-piece splits; non-trivial = at least 2 bytes; "
-             "AMQP/Kafka/HTTP families are added as their models land",
+             "kafka.raw: kafka-go-encoded conversations with 0-3 mutations (see C06), relabelled versions, random bytes",
         trusted_base=REDIS_TB + LIB,
-        assumptions=["AMQP, Kafka and HTTP dissectors are not yet covered by this check (Redis only in this commit)"],
+        assumptions=["HTTP: the parser is net/http (library code); its malformed-input behaviour is not modelled"],
     ),
     "C02": dict(
         proof_modules=["KsVerif.Proofs.C02"],
@@ -191,6 +191,32 @@ PROPS = {
                       "GenAmqpMethods.lean (re-translated from spec091.go, types.go, read.go, helpers.go by ksextract)",
                       "Amqp/Spec.lean: independent encoder and the reports the statement demands"] + LIB,
         assumptions=["io.ReadFull / binary.Read / io.CopyN on the bufio.Reader depend on the remaining bytes only"],
+    ),
+    "C06": dict(
+        proof_modules=["KsVerif.Proofs.C06"],
+        families=["kafka.conv", "kafka.raw"],
+        facts=[],
+        rule="kafka.conv: request / response streams written by github.com/segmentio/kafka-go/protocol (the independent "
+             "encoder: a dependency of /repo, cross-checked byte for byte against the Lean spec encoder over schemas "
+             "regenerated from its struct tags): Produce 0-8, Fetch 0-11, ListOffsets 1-5, Metadata 0-8, ApiVersions 0-2, "
+             "CreateTopics 0-5, DeleteTopics 0-3, each version alone, then mixed conversations of 1-5 exchanges with "
+             "responses out of order, unanswered requests, extreme correlation ids and APIs without a layout interleaved; "
+             "values: integers at and around their bounds, strings of 0 / 1-12 / 60-70 / 120-140 (/ 200-600) bytes incl. "
+             "non-ASCII and null where nullable, arrays of 0-3 elements incl. null, record batches of 1-3 records with "
+             "null / empty / long keys, values and 0-2 headers; kafka.raw: the same streams with 0-3 mutations (byte flips, "
+             "truncation, boundary-valued 16/32-bit fields, insertions, deletions, runs of varint continuation bytes), "
+             "relabelled versions and random bytes - model = dissector, no panic; non-trivial = at least one response",
+        trusted_base=["Kafka/Schema.lean + Model.lean: hand-written model of decode.go (decoder, reflective walk, records) and of "
+                      "ReadRequest / ReadResponse / the matcher; layouts from GenKafkaLayouts.lean (the struct the running "
+                      "dissector selects per api key x version -1..17, read back by reflection; int16 extremes checked)",
+                      "Kafka/Spec.lean: encoder, record-batch reader and expected reports; reference schemas from "
+                      "GenKafkaProtocol.lean (struct tags of kafka-go v0.4.38, the version /repo requires)",
+                      "kafka-go's encoder as the notion of a well-formed Kafka stream"] + LIB,
+        assumptions=["versions beyond kafka-go's ranges (e.g. Metadata 9+, ApiVersions 3+, Fetch 12+) have no independent encoder "
+                     "in the sandbox and are covered by the framing theorems and kafka.raw only",
+                     "a null string is reported as the empty string (Go strings have no null)",
+                     "the two halves are dissected one after the other (scheduling is C09/C10)",
+                     "bufio.Reader Read/Discard depend on the remaining bytes only"],
     ),
     "C07": dict(
         proof_modules=["KsVerif.Proofs.C07"],
